@@ -139,7 +139,7 @@ def run_shard(sh):
     items = W.work_items(wseed, count)
     tmp = tempfile.mkdtemp(prefix="c15-")
     try:
-        configs = [("reversed", 0, "/"), ("shuffle1", 1, tmp), ("shuffle2", 4242, nima.REPO), ("forward", "random", tmp)]
+        configs = [("reversed", 0, "/"), ("shuffle1", 1, tmp), ("shuffle2", 4242, nima.REPO), ("forward", "random", tmp), ("poisoned", 0, "/")]
         order, hs, cwd = configs[sh.index % len(configs)]
         got = child(wseed, count, order, hs, cwd)
         bad = [i for i in base if got.get(i) != base[i]]
@@ -184,13 +184,14 @@ def run_shard(sh):
             # purity after an edit on the same object
             from vf.props import c05
 
-            g = c05.gen_case(n)
+            g = c05.gen_case(n, scoped_bias=0.4)
             if g is not None:
                 t2, ops, _m = g
                 src = nima.parse(t2)
-                for op, path, value, _c in ops[:3]:
+                last = None
+                for op, path, value, _c in ops[:4]:
                     try:
-                        nima.set_value(src, path, value) if op == "set" else nima.remove_value(src, path)
+                        last = nima.set_value(src, path, value) if op == "set" else nima.remove_value(src, path)
                     except Exception:  # noqa: BLE001
                         pass
                 s0 = snapshot([src.expressions, src.trailing])
@@ -198,6 +199,10 @@ def run_shard(sh):
                     a = src.rebuild()
                     s1 = snapshot([src.expressions, src.trailing])
                     b2 = src.rebuild()
+                    if last is not None and a.rstrip("\n") != last.rstrip("\n"):
+                        # the text an edit returns *is* a rebuild of the object; rebuilding again must give it back
+                        # (the final newline is the CLI helper's business, see C16 / finding F11)
+                        fails.append(("rebuild-after-edit-differs-from-edit-output", {"text": t2[:300], "edit_output": last[:300], "rebuild": a[:300]}))
                     if s0 != s1:
                         fails.append(("rebuild-mutates-tree-after-edit", {"where": _first_diff(s0, s1), "text": t2[:300]}))
                     if a != b2:
